@@ -11,7 +11,7 @@
    des_hyps_nonvacuous, reject_nonvacuous (C12/Proofs_API.v) and the KAT files. *)
 From MV Require Import C12.Modes C12.Proofs_Modes C12.Proofs_DES C12.Proofs_AES C12.Proofs_AES_Key C12.Proofs_API.
 From MV Require Import C12.Proofs_SP80038A C12.KAT_AES C12.KAT_DES C12.KAT_Modes.
-From MV Require Import C12.Impl_DES C12.Impl_AES C12.Proofs_Impl_DES C12.Proofs_Impl_AES.
+From MV Require Import C12.Impl_DES C12.Impl_AES C12.Proofs_Impl_DES C12.Proofs_Impl_AES C12.Proofs_Impl_AES2 C12.Proofs_Impl_AES3.
 Local Open Scope N_scope.
 
 (* ===== 1. the mode loops, generic over ANY block primitive E with inverse D on bs-byte blocks ===== *)
@@ -366,3 +366,68 @@ Theorem aes_subword_impl_equals_spec : forall bs, length bs = 4%nat -> bytes bs 
   impl_sub_u32 (of_le bs) = of_le (map sbox bs).
 Proof. exact sub_u32_bytes. Qed.
 Print Assumptions aes_subword_impl_equals_spec.
+
+(* ===== 6. all of crypt/openssl/openssl_aes.c as coded = FIPS-197 =====
+   C12/Impl_AES.v: the straight-line circuits (S-boxes, openssl_xtime_u64 / _u32, one iteration of the column loops of
+   openssl_mix_columns / openssl_inv_mix_columns with the union byte views and the xtime calls expanded) are translated
+   from the C source on every run; the control structure around them (two-word state, byte loops of shift_row, round
+   loops, key expansion loop) is transcribed by hand and compared with the code through the round-key bytes left in the
+   context and the cipher output.  xtime and (Inv)MixColumns on the packed words are decided by the affine evaluator
+   (extended by the "b -= b >> 7" idiom, proved sound) against the bit-level form of the specification. *)
+
+(* muggle_openssl_aes_set_key + muggle_openssl_aes_encrypt = KeyExpansion + Cipher of FIPS-197, 128/192/256-bit keys *)
+Theorem aes_impl_equals_spec : forall bits key sk rk blk,
+  impl_aes_set_key bits key = Some sk -> aes_round_keys bits key = Some rk ->
+  length key = key_bytes bits -> bytes key -> wfb 16 blk -> impl_aes_encrypt sk blk = cipher rk blk.
+Proof. exact aes_enc_impl_spec. Qed.
+Print Assumptions aes_impl_equals_spec.
+
+(* ... + muggle_openssl_aes_decrypt = InvCipher *)
+Theorem aes_inv_impl_equals_spec : forall bits key sk rk blk,
+  impl_aes_set_key bits key = Some sk -> aes_round_keys bits key = Some rk ->
+  length key = key_bytes bits -> bytes key -> wfb 16 blk -> impl_aes_decrypt sk blk = inv_cipher rk blk.
+Proof. exact aes_dec_impl_spec. Qed.
+Print Assumptions aes_inv_impl_equals_spec.
+
+(* openssl_key_expansion (two 32-bit words per iteration, rot_word / SubWord circuit / rcon by xtime) = the round keys of
+   the standard, stored as two uint64_t per round key *)
+Theorem aes_key_expansion_impl_equals_spec : forall bits key sk rk,
+  impl_aes_set_key bits key = Some sk -> aes_round_keys bits key = Some rk ->
+  length key = key_bytes bits -> bytes key -> fst sk = rk_words rk.
+Proof. exact aes_key_expansion_impl_spec. Qed.
+Print Assumptions aes_key_expansion_impl_equals_spec.
+
+(* the round loops of openssl_cipher / openssl_inv_cipher for ANY well-formed round keys *)
+Theorem aes_cipher_loop_impl_equals_spec : forall nr rks blk, (1 <= nr)%nat -> length rks = S nr -> Forall (wfb 16) rks -> wfb 16 blk ->
+  impl_cipher (rk_words rks) nr blk = cipher rks blk.
+Proof. exact impl_cipher_spec. Qed.
+Print Assumptions aes_cipher_loop_impl_equals_spec.
+
+Theorem aes_inv_cipher_loop_impl_equals_spec : forall nr rks blk, (1 <= nr)%nat -> length rks = S nr -> Forall (wfb 16) rks -> wfb 16 blk ->
+  impl_inv_cipher (rk_words rks) nr blk = inv_cipher rks blk.
+Proof. exact impl_inv_cipher_spec. Qed.
+Print Assumptions aes_inv_cipher_loop_impl_equals_spec.
+
+(* the transformations on the packed state uint64_t[2] (load16 = the 16 state bytes viewed as two words) *)
+Theorem aes_mix_columns_impl_equals_spec : forall s, wfb 16 s -> impl_mix_columns (load16 s) = load16 (mix_columns s).
+Proof. exact mix_columns_spec. Qed.
+Print Assumptions aes_mix_columns_impl_equals_spec.
+
+Theorem aes_inv_mix_columns_impl_equals_spec : forall s, wfb 16 s -> impl_inv_mix_columns (load16 s) = load16 (inv_mix_columns s).
+Proof. exact inv_mix_columns_spec. Qed.
+Print Assumptions aes_inv_mix_columns_impl_equals_spec.
+
+Theorem aes_shift_row_impl_equals_spec : forall s, wfb 16 s ->
+  impl_shift_row (load16 s) = load16 (shift_rows s) /\ impl_inv_shift_row (load16 s) = load16 (inv_shift_rows s).
+Proof. exact (fun s H => conj (shift_row_spec s H) (inv_shift_row_spec s H)). Qed.
+Print Assumptions aes_shift_row_impl_equals_spec.
+
+Theorem aes_add_round_key_impl_equals_spec : forall k s, wfb 16 k -> wfb 16 s ->
+  impl_add_round_key (load16 s) (load16 k) = load16 (add_round_key k s).
+Proof. exact add_round_key_spec. Qed.
+Print Assumptions aes_add_round_key_impl_equals_spec.
+
+(* openssl_xtime_u32 (with its "b -= b >> 7" idiom) = xtime of FIPS-197 4.2.1 on each of the 4 bytes *)
+Theorem aes_xtime_impl_equals_spec : forall w, word4 w -> impl_xtime_u32 (of_le w) = of_le (map xtime w).
+Proof. exact xtime_u32_spec. Qed.
+Print Assumptions aes_xtime_impl_equals_spec.
